@@ -247,6 +247,35 @@ def parse_stack(block):
     return out
 
 
+TABLE_RULE = re.compile(r'^-+\+-+$')
+
+
+def parse_table_column(block):
+    """the script column of the state table a step / rewind prints (None when the block has no table)"""
+    ls = [l.rstrip('\r') for l in block.split('\n')]
+    rules = [j for j, l in enumerate(ls) if TABLE_RULE.match(l)]
+    if not rules:
+        return None
+    w = ls[rules[-1]].index('+')
+    out = []
+    for l in ls[rules[-1] + 1:]:
+        if len(l) <= w or l[w] != '|':
+            break
+        out.append(l[:w].rstrip())
+    while out and not out[-1]:
+        out.pop()
+    return out
+
+
+def column_matches(got, want):
+    if len(got) != len(want):
+        return False
+    for a, b in zip(got, want):
+        if a != b and not (a.endswith('...') and b.startswith(a[:-3])):
+            return False
+    return True
+
+
 def case_json(case):
     return c04.case_json(case)
 
@@ -345,6 +374,19 @@ def check_session(case, ctx):
             if marked != [target]:
                 raise Violation(case, 'after %d commands the marker is at line(s) %s, the next step executes line %d (%r)' % (k, marked, target, lines[target] if target < len(lines) else None),
                                 observed=[(i, pl[i][1]) for i in marked], expected=[target, lines[target] if target < len(lines) else None])
+        # the script column of the table a step / rewind prints holds what is still to be executed: the listing from the pending line on
+        if k > 0 and g['log'][k - 1]['acc']:
+            col = parse_table_column(echoes[k])
+            if col is not None:
+                if d['tce']:
+                    want = ['<<< taproot commitment >>>'] + lines[target:ntce] + ['<<< committed script >>>'] + lines[ntce:]
+                else:
+                    want = [] if target is None else lines[target:]
+                ctx.count('table-column-compared')
+                if not column_matches(col, want):
+                    bad = next((i for i in range(min(len(col), len(want))) if not column_matches(col[i:i + 1], want[i:i + 1])), min(len(col), len(want)))
+                    raise Violation(case, 'after %d commands the script column of the state table differs at its line %d from what is still to be executed: %r vs %r' % (k, bad, col[bad:bad + 1], want[bad:bad + 1]),
+                                    observed=col[:6], expected=want[:6])
         # the line echoed by step / rewind is the marked line
         if k > 0 and g['log'][k - 1]['acc']:
             el = [l for l in echoes[k].split('\n') if l.strip()]
